@@ -326,3 +326,52 @@ Proof.
   - exact (rm_all_shrinks _ _ _ _ _ _ Erm).
   - intros ->. exact (rm_all_exact rfuel s o name s' Hu Hpl Erm).
 Qed.
+
+(* ---- a caller that comes after: the named entry is absent -> success, nothing changes -------------------- *)
+Theorem rm_all_absent f s d name : Dyn.plain name = true -> too_long name = false -> is_dir s d = true ->
+  lookup s d name = None -> rm_all (S f) s d name = Some (s, Ok tt).
+Proof.
+  intros Hp Hl Hd Hn. destruct (plain_facts _ Hp) as (Hnil & Hdot & Hdd & Hsl & Hnu).
+  cbn [rm_all]. rewrite Hsl. unfold dot_or_dotdot. rewrite Hdot, Hdd, andb_false_r. cbn [orb].
+  assert (Hne : FSModel.name_err name = ENOENT).
+  { unfold FSModel.name_err. unfold too_long in Hl. rewrite Hl. reflexivity. }
+  unfold rm_inode, unlink_sem. rewrite Hd, Hnil, Hsl, Hnu, Hdot, Hdd, Hn, Hne. vm_compute. reflexivity.
+Qed.
+
+Corollary rm_all_again f g s d name s' : Dyn.plain name = true -> too_long name = false -> is_dir s d = true ->
+  rm_all f s d name = Some (s', Ok tt) -> rm_all (S g) s' d name = Some (s', Ok tt).
+Proof.
+  intros Hp Hl Hd H. apply rm_all_absent; try assumption.
+  - destruct (rm_all_shrinks _ _ _ _ _ _ H) as (Hk & _). unfold FSModel.is_dir, FSModel.kind_of in *. rewrite Hk. exact Hd.
+  - exact (rm_all_gone _ _ _ _ _ Hp H).
+Qed.
+
+(* ---- the same for the emulated backend: the parent lookup is C01's refinement on the static kernel --------- *)
+Theorem remove_all_emu_post s rp F df fz pfuel o2 gh ps rs t root path dirp name o k rfuel :
+  closed s -> fz <> 0%nat -> chk_static_ok s rp F (check_current fz o2 pfuel gh) -> FSProofs.wf s df -> links_ok s ->
+  rs_kernel rs = false -> uniq s -> ents_ok s ->
+  path_split path = Some (Ok (dirp, Some name)) -> has_nul dirp = false -> Dyn.plain name = true ->
+  Frame s F t -> tget t root = Some ROOT ->
+  FSModel.ewalk s dirp false (has (rs_flags rs) RESOLVE_NO_SYMLINKS) = FSModel.WOk o ->
+  (forall c, lookup s o name = Some c -> is_dir s c = true -> deep s k c) -> (k + length (ents s) + 6 <= rfuel)%nat ->
+  exists s' t' r,
+    Dyn.drun rp {| ds := s; dt := t; dseen := [] |} (root_remove_all fz o2 pfuel gh ps rfuel rs root path) =
+      DDone {| ds := s'; dt := t'; dseen := [] |} r /\
+    (* no descriptor left behind *)
+    (forall x, indom t' x -> indom t x) /\
+    shrinks s s' /\
+    (r = Ok tt -> forall e, In e (ents s') <-> (In e (ents s) /\ ~ under s o name e)).
+Proof.
+  intros Hcl Hfz Hchk Hwf Hl Hk Hu Hok Hsplit Hnul Hpl Hfr Hroot Hw Hdeep Hfuel.
+  destruct (plain_facts _ Hpl) as (Hnil & _ & _ & _ & Hnn).
+  destruct (parent_ok_emu s rp F df fz pfuel o2 gh ps Hcl Hfz Hchk Hwf Hl rs Hk t root path dirp name o Hsplit Hnul Hfr Hroot Hw)
+    as (t1 & dir & Hp & _ & _).
+  pose proof (root_remove_all_exact s rp fz pfuel o2 gh ps rs Hfz rfuel t root path _ _ name o Hp Hok Hnn Hnil) as Hrun.
+  pose proof (rm_all_total k rfuel s o name Hok Hfuel Hdeep) as Htot.
+  destruct (rm_all rfuel s o name) as [[s' r]|] eqn:Erm; [|contradiction].
+  exists s', (tdel t1 dir), r. split; [exact Hrun|]. split; [|split].
+  - intros x Hx. apply indom_del in Hx. destruct Hx as [Hin Hne]. destruct Hp as (_ & _ & _ & _ & Honly).
+    destruct (Honly x Hin) as [H|H]; [exact H|contradiction].
+  - exact (rm_all_shrinks _ _ _ _ _ _ Erm).
+  - intros ->. exact (rm_all_exact rfuel s o name s' Hu Hpl Erm).
+Qed.
